@@ -560,6 +560,15 @@ class Inliner:
             out.append(ast.Return(value=val))
         elif kind == 'expr' and tail is not None:
             out.append(ast.Expr(value=sub.visit(clone(tail))))
+        if any(isinstance(v_, ast.Constant) for v_ in env.values()
+               if not isinstance(v_, list)):
+            folded = []
+            for st in out:
+                r_ = _FoldTests().visit(st)
+                if r_ is None:
+                    continue
+                folded.extend(r_ if isinstance(r_, list) else [r_])
+            out = _drop_dead(folded)
         for st in out:
             for x in ast.walk(st):
                 ast.copy_location(x, call) if not hasattr(
@@ -861,6 +870,9 @@ class Inliner:
         self.fold_getattr()
         self.unroll_literal_loops()
         self.fold_getattr()
+        self.split_tuple_assigns()
+        self.propagate_callable_aliases()
+        self.fold_getattr()
         self.forward_loop_iterables()
         self.scalarise_namedtuples()
         self.desugar_globals_dict()
@@ -868,6 +880,72 @@ class Inliner:
         self.split_tuple_assigns()
         ast.fix_missing_locations(self.tree)
         return self.tree
+
+    def propagate_callable_aliases(self):
+        """``take = visit.pop`` (one binding, a plain name / attribute
+        reference, the receiver never rebound) with ``take`` used only as
+        ``take(..)``: the calls are written ``visit.pop(..)``.  Only in
+        functions this normaliser has rewritten."""
+        touched = {n.split(':')[0].split('.')[-1] for n in self.notes
+                   if ':' in n}
+        for f in ast.walk(self.tree):
+            if not (isinstance(f, ast.FunctionDef) and f.name in touched):
+                continue
+            params = {a.arg for a in f.args.args}
+            binds, loads = {}, {}
+            for x in ast.walk(f):
+                if isinstance(x, ast.Assign):
+                    for t in x.targets:
+                        for y in ast.walk(t):
+                            if isinstance(y, ast.Name):
+                                binds.setdefault(y.id, []).append(x)
+                elif isinstance(x, (ast.For, ast.AugAssign,
+                                    ast.comprehension, ast.NamedExpr)):
+                    for y in ast.walk(x.target):
+                        if isinstance(y, ast.Name):
+                            binds.setdefault(y.id, []).append(None)
+            par = {}
+            for p_ in ast.walk(f):
+                for c_ in ast.iter_child_nodes(p_):
+                    par[id(c_)] = p_
+            for v, sts in list(binds.items()):
+                if v in params or len(sts) != 1 or sts[0] is None:
+                    continue
+                st = sts[0]
+                if len(st.targets) != 1 or not isinstance(
+                        st.targets[0], ast.Name):
+                    continue
+                val = st.value
+                if isinstance(val, ast.Name):
+                    root = val.id
+                    if root in binds or root in params:
+                        continue  # not a function / builtin name
+                elif isinstance(val, ast.Attribute) and isinstance(
+                        val.value, ast.Name):
+                    root = val.value.id
+                    # the receiver must be bound once, before
+                    if len(binds.get(root, [])) > 1:
+                        continue
+                else:
+                    continue
+                uses = [x for x in ast.walk(f) if isinstance(x, ast.Name)
+                        and x.id == v and isinstance(x.ctx, ast.Load)]
+                if not uses or not all(isinstance(par.get(id(u)), ast.Call)
+                                       and par[id(u)].func is u
+                                       for u in uses):
+                    continue
+                for u in uses:
+                    par[id(u)].func = clone(val)
+                # drop the binding
+                for x in ast.walk(f):
+                    for fld in ('body', 'orelse', 'finalbody'):
+                        blk = getattr(x, fld, None)
+                        if isinstance(blk, list) and st in blk:
+                            blk.remove(st)
+                            if not blk:
+                                blk.append(ast.Pass())
+                self.notes.append(f'{f.name}: callable alias "{v}" written '
+                                  f'as {ast.unparse(val)}')
 
     def forward_loop_iterables(self):
         """``v = E`` directly followed by ``for t in v:`` where these are
@@ -1412,7 +1490,15 @@ class Inliner:
                                           f'{len(it.elts)}-element literal')
 
     def fold_getattr(self):
-        """getattr(x, 'name') with a constant identifier is x.name."""
+        """getattr(x, 'name') with a constant identifier is x.name;
+        ``for v in iter(X)`` iterates over X."""
+        for x in ast.walk(self.tree):
+            if isinstance(x, (ast.For, ast.comprehension)) and isinstance(
+                    x.iter, ast.Call) and isinstance(
+                        x.iter.func, ast.Name) and x.iter.func.id == 'iter' \
+                    and len(x.iter.args) == 1 and not x.iter.keywords:
+                x.iter = x.iter.args[0]
+
         class G(ast.NodeTransformer):
 
             def visit_Call(self, n):
@@ -1458,6 +1544,15 @@ class Inliner:
             elif isinstance(st, ast.Return) and isinstance(st.value,
                                                            ast.Call):
                 call, kind = st.value, 'return'
+                h0, _sk = self.helper_for(call, cls, closures)
+                if h0 is not None and _has_yield(h0) and \
+                        isinstance(owner, ast.FunctionDef) and \
+                        not _has_yield(owner) and st is body[-1] and \
+                        body is owner.body:
+                    # "def f(..): return g(..)" with g a generator: f hands
+                    # out g's iteration - for the analysis f is that
+                    # generator
+                    kind = 'yieldfrom'
             elif isinstance(st, ast.Expr) and isinstance(st.value, ast.Call):
                 call, kind = st.value, 'expr'
             elif isinstance(st, ast.Expr) and isinstance(
